@@ -854,7 +854,16 @@ class Analysis:
                 if f and f[0] == "cmp" and f[1] == "Lt":
                     self.need(st, body, blk, "shift-overflow", 0, t["sp"], f[3].sub(f[2]).sub(Lin(1)), "shift amount below bit width", ctx)
             else:
-                self.oblige(body, blk, "add-overflow", 0, t["sp"], True, f"{op} of length-sized operands cannot overflow 64 bits", ctx)
+                ty0 = body.local_ty(p[0]).strip("()").split(",")[0].strip() if p is not None else ""
+                if op == "Add" and ty0 in ("u8", "u16") and pf and pf[0] == "ovf":
+                    # arithmetic in a narrow type: the sum must provably fit (it panics with overflow checks and silently wraps without them,
+                    # after which every length derived from it is wrong)
+                    if pf[2] is not None and pf[3] is not None:
+                        self.need(st, body, blk, "narrow-add-overflow", 0, t["sp"], Lin(MAXU[ty0]).sub(pf[2]).sub(pf[3]), f"{ty0} addition stays within {MAXU[ty0]}", ctx)
+                    else:
+                        self.oblige(body, blk, "narrow-add-overflow", 0, t["sp"], False, f"{ty0} addition of unknown operands", ctx)
+                else:
+                    self.oblige(body, blk, "add-overflow", 0, t["sp"], True, f"{op} of length-sized operands cannot overflow 64 bits", ctx)
             return
         if msg in ("DivisionByZero", "RemainderByZero"):
             self.oblige(body, blk, "div-zero", 0, t["sp"], True, "constant non-zero divisor", ctx)
